@@ -105,6 +105,7 @@ func checkC11(c *Ctx) {
 	checkC11Operands(c, p)
 	checkC11Overwrite(c, p)
 	checkDecodeFresh(c, p)
+	checkClearBeforeCopy(c, p, "C11.overwrite", "ecc/goldilocks", "Scalar", "FromBytes")
 	checkC11Fresh(c, p)
 	checkC11Retain(c, p)
 	checkC11Append(c, p)
